@@ -83,10 +83,19 @@ def Exn.name : Exn → String
   | .attributeError => "AttributeError"
   | .staleConnector => "StaleConnector"
 
+/-- L2 records that travel on a link after the KCMs (C11 needs their control effects only) -/
+inductive Rec where
+  | open_ (seq : Nat)        -- an Open/Data/Close: has a seqnum, is queued until acked, is re-sent by `Outbound.use_connection`
+  | ack (seq : Nat)
+  | ping
+  | pong
+  deriving DecidableEq, Repr, Inhabited, Hashable
+
 structure End where
   owner : Option Connector.State := none   -- none: the side's current connector; some st: an old one, frozen in st
   dcp : DCP.State := DCP.init
   status : Status := .open_
+  inq : List Rec := []       -- DilatedConnectionProtocol._inbound_record_queue (records read while `selecting`)
   deriving DecidableEq, Repr, Inhabited, Hashable
 
 structure Link where
@@ -96,7 +105,24 @@ structure Link where
   kl : Bool := false        -- the leader's KCM is in flight to the follower
   a : End := {}
   b : End := {}
+  qa : List Rec := []       -- records written by A after its KCM, not yet delivered
+  qb : List Rec := []
+  sa : Bool := false        -- silent loss: what A writes is no longer delivered (neither end is told)
+  sb : Bool := false
   deriving DecidableEq, Repr, Inhabited, Hashable
+
+def Link.q (k : Link) : SideId → List Rec
+  | .A => k.qa
+  | .B => k.qb
+
+def Link.setQ (k : Link) (x : SideId) (q : List Rec) : Link :=
+  match x with
+  | .A => { k with qa := q }
+  | .B => { k with qb := q }
+
+def Link.silent (k : Link) : SideId → Bool
+  | .A => k.sa
+  | .B => k.sb
 
 def Link.end_ (k : Link) : SideId → End
   | .A => k.a
@@ -121,6 +147,10 @@ structure Side where
   conn : Option Nat := none -- Manager._connection (slot of the link)
   eq : List EqCall := []    -- the control-relevant calls waiting in the EventualQueue
   tt : Option TrafficTimer.State := none
+  timer : Bool := false     -- Manager._timer: the ping interval DelayedCall is pending
+  oq : List Nat := []       -- seqnums in Outbound._outbound_queue (sent or not, not yet acked)
+  nseq : Nat := 0           -- Outbound._next_outbound_seqnum
+  rxh : Nat := 0            -- Inbound._highest_inbound_acked + 1
   deriving DecidableEq, Repr, Inhabited, Hashable
 
 structure Sys where
@@ -235,13 +265,71 @@ def retireConnector (x : SideId) (s : Sys) : Sys :=
     let s := s.modSide x.other (fun p => { p with att := p.att.map (fun _ => false), pend := p.pend.map unstale })
     s.modSide x (fun sd => { sd with stale := sd.stale || sd.lst, lst := false })
 
+/-- `DilatedConnectionProtocol.send_record` on end `(x, l)`: `assert self._can_send_records` (set by
+    `select`), then the frame is written — a transport that is closing / lost drops it -/
+def writeRec (x : SideId) (l : Nat) (r : Rec) (s : Sys) : R :=
+  match s.link? l with
+  | none => (s, some .attributeError)
+  | some k =>
+    let e := k.end_ x
+    if e.dcp ≠ .selected then (s, some .assertion)
+    else if e.status = .open_ then (s.setLink l (k.setQ x (k.q x ++ [r])), none)
+    else (s, none)
+
+/-- `Outbound.send_if_connected` (Ping / Pong / Ack are never queued) -/
+def sendIfConnected (x : SideId) (r : Rec) (s : Sys) : R :=
+  match (s.side x).conn with
+  | some l => writeRec x l r s
+  | none => (s, none)
+
+def ttOutput (x : SideId) (o : TrafficTimer.Output) (s : Sys) : R :=
+  match o with
+  | .begin_timing =>
+    -- Manager._send_ping_reset_timer: send_ping, then start (or extend) the interval timer
+    andThen (sendIfConnected x .ping s) (fun s => (s.modSide x (fun sd => { sd with timer := true }), none))
+  | .signal_reconnect =>
+    -- Manager._signal_reconnect: `if self._connection: self._connection.disconnect()`
+    match (s.side x).conn with
+    | some l => (s.modEnd x l loseConnection, none)
+    | none => (s, none)
+
 def ttInput (x : SideId) (i : TrafficTimer.Input) (s : Sys) : R :=
   match (s.side x).tt with
   | none => (s, some .attributeError)
   | some st =>
     match TrafficTimer.table st i with
     | none => (s, some (.ntTraffic st i))
-    | some (st', _) => (s.modSide x (fun sd => { sd with tt := some st' }), none)   -- begin_timing: ping + timer, no control effect
+    | some (st', outs) =>
+      seqAll (ttOutput x) outs (s.modSide x (fun sd => { sd with tt := some st' }))
+
+/-- `Manager.got_record(r)` -/
+def gotRecord (x : SideId) (r : Rec) (s : Sys) : R :=
+  match r with
+  | .open_ n =>
+    -- always ack, even old ones; then ignore old ones; update the watermark; Inbound.handle_* (no control effect)
+    andThen (sendIfConnected x (.ack n) s) (fun s =>
+      if n < (s.side x).rxh then (s, none)
+      else (s.modSide x (fun sd => { sd with rxh := n + 1 }), none))
+  | .ack n => (s.modSide x (fun sd => { sd with oq := sd.oq.dropWhile (· ≤ n) }), none)     -- Outbound.handle_ack
+  | .ping => sendIfConnected x .pong s
+  | .pong =>
+    -- handle_pong -> on_pong -> self._traffic.traffic_seen()
+    ttInput x .traffic_seen s
+
+/-- the DCP input `got_record` at end `(x, l)` -/
+def dcpGotRecord (x : SideId) (l : Nat) (r : Rec) (s : Sys) : R :=
+  match s.link? l with
+  | none => (s, none)
+  | some k =>
+    let e := k.end_ x
+    match DCP.table e.dcp .got_record with
+    | none => (s, some (.ntDCP e.dcp .got_record))
+    | some (d', outs) =>
+      let s := s.modEnd x l (fun e => { e with dcp := d' })
+      seqAll (fun o s => match o with
+        | .deliver_record => gotRecord x r s
+        | .queue_inbound_record => (s.modEnd x l (fun e => { e with inq := e.inq ++ [r] }), none)
+        | _ => (s, none)) outs s
 
 mutual
 
@@ -282,6 +370,7 @@ def mgrOutput (fuel : Nat) (x : SideId) (fresh : Bool) (o : Manager.Output) (s :
   | .use_hints => conInput fuel x none .got_hints 0 fresh s
   | .stop_connecting => conInput fuel x none .k_stop 0 false s
   | .abandon_connection =>
+    let s := s.modSide x (fun sd => { sd with timer := false })      -- `if self._timer is not None: cancel`
     match (s.side x).conn with
     | none => (s, some .attributeError)
     | some l => (s.modEnd x l loseConnection, none)
@@ -334,6 +423,9 @@ def conOutput (fuel : Nat) (x : SideId) (l : Nat) (fresh : Bool) (o : Connector.
         let s := s.modEnd x l (fun e => { e with dcp := d' })
         -- set_manager: when_disconnected().addCallback(...): fires (eventually) at once if already lost
         let s := if e.status = .lost then s.modSide x (fun sd => { sd with eq := sd.eq ++ [.lostcb l] }) else s
+        -- process_inbound_queue: what was read while `selecting` goes to the Manager now (Outbound has no connection yet)
+        let s := s.modEnd x l (fun e => { e with inq := [] })
+        andThen (seqAll (gotRecord x) e.inq s) fun s =>
         -- if self._role is LEADER: c.send_record(KCM())   (can_send_records was just set; a write on a dead transport is dropped)
         let s := if (s.side x).role = some .leader ∧ e.status = .open_ then
                    (match s.link? l with | some k => s.setLink l { k with kl := true } | none => s) else s
@@ -351,7 +443,9 @@ def connectionMade (fuel : Nat) (x : SideId) (l : Nat) (s : Sys) : R :=
       else (s, none)
     andThen r (fun s =>
       andThen (mgrInput fuel x .connection_made false s) (fun s =>
-        (s.modSide x (fun sd => { sd with conn := some l }), none)))
+        let s := s.modSide x (fun sd => { sd with conn := some l })
+        -- Outbound.use_connection(c): every queued (un-acked) record is sent again, in order
+        seqAll (fun n s => writeRec x l (.open_ n) s) (s.side x).oq s))
 
 end
 
@@ -361,7 +455,7 @@ def FUEL : Nat := 12
 def connectionLost (x : SideId) (s : Sys) : R :=
   let r : R := if (s.side x).tt.isSome then ttInput x .lost_connection s else (s, none)
   andThen r (fun s =>
-    let s := s.modSide x (fun sd => { sd with conn := none })        -- _stop_using_connection
+    let s := s.modSide x (fun sd => { sd with conn := none, timer := false })        -- _stop_using_connection (cancels the ping timer)
     if (s.side x).role = some .leader then mgrInput FUEL x .connection_lost_leader false s
     else mgrInput FUEL x .connection_lost_follower false s)
 
@@ -414,6 +508,10 @@ inductive Event where
   | kcmf (l : Nat)
   | kcml (l : Nat)
   | lose (x : SideId) (l : Nat)  -- connectionLost at end (x, l)
+  | write (x : SideId)         -- the application opens a subchannel: one more record with a seqnum (Manager.send_open)
+  | tick (x : SideId)          -- the ping interval DelayedCall of `x` fires
+  | silence (x : SideId) (l : Nat)  -- silent loss: from now on nothing `x` writes on link l arrives; nobody is told
+  | more (x : SideId) (l : Nat)     -- the next record written by `x` on link l reaches the other end
   deriving DecidableEq, Repr, Inhabited, Hashable
 
 inductive Outcome where
@@ -452,6 +550,9 @@ def gc (s : Sys) : Sys :=
 
 def bothOpen (k : Link) : Bool := k.a.status = .open_ && k.b.status = .open_
 
+/-- both ends open and delivering in both directions -/
+def healthy (k : Link) : Bool := bothOpen k && !k.sa && !k.sb
+
 def freshHints (ms : List Msg) : Nat := (ms.filter (· == .hints true)).length
 
 /-- candidate opportunities of the newest generation other than link `l`: healthy links between the
@@ -462,7 +563,7 @@ def otherCandidates (s : Sys) (l : Nat) : Nat :=
   let rec cnt : Nat → List (Option Link) → Nat
     | _, [] => 0
     | i, none :: t => cnt (i + 1) t
-    | i, some k :: t => (if i ≠ l ∧ bothOpen k ∧ k.a.owner = none ∧ k.b.owner = none then 1 else 0) + cnt (i + 1) t
+    | i, some k :: t => (if i ≠ l ∧ healthy k ∧ k.a.owner = none ∧ k.b.owner = none then 1 else 0) + cnt (i + 1) t
   cnt 0 s.links
     + (if s.ra then (s.a.att.filter id).length + freshHints s.ba + freshHints s.a.pend else 0)
     + (if s.rb then (s.b.att.filter id).length + freshHints s.ab + freshHints s.b.pend else 0)
@@ -477,7 +578,7 @@ def killOK (s : Sys) (l : Nat) : Bool :=
     let selectedByLeader := match s.roleSide .leader with
       | some ld => (k.end_ ld).dcp = .selected
       | none => false
-    selectedByLeader || !bothOpen k || k.a.owner.isSome || k.b.owner.isSome || otherCandidates s l > 0
+    selectedByLeader || !healthy k || k.a.owner.isSome || k.b.owner.isSome || otherCandidates s l > 0
 
 /-- is the operation enabled (the driver answers `skip` otherwise) -/
 def enabled (s : Sys) : Event → Bool
@@ -490,19 +591,32 @@ def enabled (s : Sys) : Event → Bool
   | .sigrec x => (s.side x).dil && (s.side x).role = some .leader && (s.side x).conn.isSome
   | .hs l =>
     match s.link? l with
-    | some k => bothOpen k && !k.hs && (s.roleSide .leader).isSome && (s.roleSide .follower).isSome
+    | some k => healthy k && !k.hs && (s.roleSide .leader).isSome && (s.roleSide .follower).isSome
     | none => false
   | .kcmf l =>
     match s.link? l, s.roleSide .leader, s.roleSide .follower with
-    | some k, some ld, some _ => k.kf && (k.end_ ld).status = .open_
+    | some k, some ld, some fo => k.kf && (k.end_ ld).status = .open_ && !k.silent fo
     | _, _, _ => false
   | .kcml l =>
     match s.link? l, s.roleSide .leader, s.roleSide .follower with
-    | some k, some _, some fo => k.kl && (k.end_ fo).status = .open_
+    | some k, some ld, some fo => k.kl && (k.end_ fo).status = .open_ && !k.silent ld
     | _, _, _ => false
   | .lose x l =>
     match s.link? l with
     | some k => (k.end_ x).status ≠ .lost && killOK s l
+    | none => false
+  | .write x => (s.side x).dil && (s.side x).role.isSome
+  | .tick x => (s.side x).timer
+  | .silence x l =>
+    match s.link? l with
+    | some k => !k.silent x && killOK s l
+    | none => false
+  | .more x l =>
+    -- the writer's own KCM precedes its records on the wire
+    match s.link? l with
+    | some k =>
+      !(k.q x).isEmpty && (k.end_ x.other).status = .open_ && !k.silent x &&
+        !(if (s.side x).role = some .leader then k.kl else k.kf)
     | none => false
 
 /-- the effect of an enabled event (before `gc`) -/
@@ -585,6 +699,34 @@ def apply (s : Sys) : Event → Sys × Outcome
       let s := if e.dcp = .selected then s.modSide x (fun sd => { sd with eq := sd.eq ++ [.lostcb l] }) else s
       (s, .ok)
     | none => (s, .skip)
+  | .write x =>
+    -- Manager.send_open -> _queue_and_send: Outbound.build_record, queue_and_send_record
+    let n := (s.side x).nseq
+    let s := s.modSide x (fun sd => { sd with nseq := n + 1, oq := sd.oq ++ [n] })
+    (match sendIfConnected x (.open_ n) s with
+     | (s, none) => (s, .ok)
+     | (s, some e) => (s, .exn e))
+  | .tick x =>
+    -- timer_expired: `self._timer = None; self._traffic.interval_elapsed()`
+    let s := s.modSide x (fun sd => { sd with timer := false })
+    (match ttInput x .interval_elapsed s with
+     | (s, none) => (s, .ok)
+     | (s, some e) => (s, .exn e))
+  | .silence x l =>
+    match s.link? l with
+    | some k => (s.setLink l (match x with | .A => { k with sa := true } | .B => { k with sb := true }), .ok)
+    | none => (s, .skip)
+  | .more x l =>
+    match s.link? l with
+    | some k =>
+      (match k.q x with
+       | [] => (s, .skip)
+       | r :: rest =>
+         let s := s.setLink l (k.setQ x rest)
+         match dcpGotRecord x.other l r s with
+         | (s, none) => (s, .ok)
+         | (s, some e) => (s, .exn e))
+    | none => (s, .skip)
 
 def step (s : Sys) (e : Event) : Sys × Outcome :=
   if enabled s e then
@@ -592,51 +734,80 @@ def step (s : Sys) (e : Event) : Sys × Outcome :=
     (gc s', oc)
   else (s, .skip)
 
-/-! ## the finite abstraction: the same `step`, at most `K` link slots -/
+/-! ## the finite abstractions: the same `step`, a bounded environment
 
-def K : Nat := 2
+`absK`: at most 2 links at a time, every network, both side orders; no application records, no ping-timer
+expiry, no silent loss.  `absS`: at most 1 link at a time, every network (A leads), PLUS silent loss of either
+direction of the link, the leader's ping interval timer (`tick`), Ping/Pong/Ack on the wire and one application
+record per side that stays queued until acked and is re-sent by `Outbound.use_connection` on every new connection. -/
 
-def enabledK (s : Sys) (e : Event) : Bool :=
+structure Abs where
+  K : Nat               -- link slots
+  W : Nat               -- application records with a seqnum, per side
+  ext : Bool            -- silent loss, ping timer, records
+  inits : List Sys
+
+def enabledP (p : Abs) (s : Sys) (e : Event) : Bool :=
   enabled s e &&
   (match e with
    | .connect x =>
      -- a connection that would succeed needs a free slot among the K
      (match (s.side x).att with
-      | tgt :: _ => !(tgt && (s.side x.other).lst && s.reach x) || firstFree s.links < K
+      | tgt :: _ => !(tgt && (s.side x.other).lst && s.reach x) || firstFree s.links < p.K
       | [] => false)
-   | .hs l | .kcmf l | .kcml l | .lose _ l => l < K
+   | .hs l | .kcmf l | .kcml l | .lose _ l => l < p.K
+   | .write x => p.ext && (s.side x).nseq < p.W
+   | .tick _ => p.ext
+   | .silence _ l | .more _ l => p.ext && l < p.K
    | _ => true)
 
-def allEvents : List Event :=
+def sideEvents : List Event :=
   [.key .A, .key .B, .vers .A, .vers .B, .dilate .A, .dilate .B, .deliver .A, .deliver .B,
-   .connect .A, .connect .B, .turn1 .A, .turn1 .B, .sigrec .A, .sigrec .B] ++
-  (List.range K).flatMap (fun l => [.hs l, .kcmf l, .kcml l, .lose .A l, .lose .B l])
+   .connect .A, .connect .B, .turn1 .A, .turn1 .B, .sigrec .A, .sigrec .B,
+   .write .A, .write .B, .tick .A, .tick .B]
+
+def linkEvents (l : Nat) : List Event :=
+  [.hs l, .kcmf l, .kcml l, .lose .A l, .lose .B l, .silence .A l, .silence .B l, .more .A l, .more .B l]
+
+def allEventsP (p : Abs) : List Event := sideEvents ++ (List.range p.K).flatMap linkEvents
 
 /-- both orders of the side strings × every network in which at least one direction of dialling works -/
-def inits : List Sys :=
-  [{ cmp := .gt }, { cmp := .lt },
-   { cmp := .gt, rb := false }, { cmp := .lt, rb := false },
-   { cmp := .gt, ra := false }, { cmp := .lt, ra := false }]
+def absK : Abs :=
+  { K := 2, W := 0, ext := false,
+    inits := [{ cmp := .gt }, { cmp := .lt },
+              { cmp := .gt, rb := false }, { cmp := .lt, rb := false },
+              { cmp := .gt, ra := false }, { cmp := .lt, ra := false }] }
 
-def succs (s : Sys) : List Sys :=
-  allEvents.filterMap (fun e => if enabledK s e then some (step s e).1 else none)
+def absS : Abs :=
+  { K := 1, W := 1, ext := true,
+    inits := [{ cmp := .gt }, { cmp := .gt, rb := false }, { cmp := .gt, ra := false }] }
+
+def K : Nat := absK.K
+def enabledK : Sys → Event → Bool := enabledP absK
+def allEvents : List Event := allEventsP absK
+def inits : List Sys := absK.inits
+
+def succsP (p : Abs) (s : Sys) : List Sys :=
+  (allEventsP p).filterMap (fun e => if enabledP p s e then some (step s e).1 else none)
 
 /-- the search gives up (answer `false`) beyond this many states: a changed table can make the
     abstraction unbounded, and a certificate must fail fast then -/
-def STATE_LIMIT : Nat := 150000
+def STATE_LIMIT : Nat := 600000
 
-def bfs : Nat → List Sys → Std.HashSet Sys → Std.HashSet Sys × Bool
+def bfs (p : Abs) : Nat → List Sys → Std.HashSet Sys → Std.HashSet Sys × Bool
   | 0, frontier, seen => (seen, frontier.isEmpty)
   | _ + 1, [], seen => (seen, true)
   | fuel + 1, frontier, seen =>
     if seen.size > STATE_LIMIT then (seen, false) else
     let (next, seen') := frontier.foldl (fun (acc : List Sys × Std.HashSet Sys) s =>
-      (succs s).foldl (fun (acc : List Sys × Std.HashSet Sys) t =>
+      (succsP p s).foldl (fun (acc : List Sys × Std.HashSet Sys) t =>
         if acc.2.contains t then acc else (t :: acc.1, acc.2.insert t)) acc) ([], seen)
-    bfs fuel next seen'
+    bfs p fuel next seen'
 
-def reachable (fuel : Nat) : Std.HashSet Sys × Bool :=
-  bfs fuel inits (inits.foldl (fun h s => h.insert s) {})
+def reachableP (p : Abs) (fuel : Nat) : Std.HashSet Sys × Bool :=
+  bfs p fuel p.inits (p.inits.foldl (fun h s => h.insert s) {})
+
+def reachable (fuel : Nat) : Std.HashSet Sys × Bool := reachableP absK fuel
 
 /-! ## what is certified -/
 
@@ -700,7 +871,7 @@ def goal (s : Sys) : Bool :=
   (match s.a.conn, s.b.conn with
    | some l, some l' =>
      l = l' && (match s.link? l with
-       | some k => bothOpen k && k.a.dcp = .selected && k.b.dcp = .selected
+       | some k => healthy k && k.a.dcp = .selected && k.b.dcp = .selected
        | none => false)
    | _, _ => false)
 
@@ -711,7 +882,13 @@ def coop (s : Sys) : Event → Bool
   | .sigrec _ => false
   | .lose _ l =>
     match s.link? l with
-    | some k => !bothOpen k || k.a.owner.isSome || k.b.owner.isSome
+    | some k => !healthy k || k.a.owner.isSome || k.b.owner.isSome
+    | none => false
+  | .write _ | .silence _ _ => false
+  | .tick x =>
+    -- a ping interval may elapse unanswered only on a connection that no longer delivers
+    match (s.side x).conn with
+    | some l => (match s.link? l with | some k => !healthy k | none => false)
     | none => false
   | _ => true
 
@@ -820,7 +997,7 @@ def showSide (c : Conc) (x : SideId) : String :=
   let con := match sd.con with | none => "-" | some st => Connector.State.name st
   let conn := match sd.conn with | none => "-" | some l => toString l
   let tt := match sd.tt with | none => "-" | some st => TrafficTimer.State.name st
-  base ++ s!" mgr={Manager.State.name sd.mgr} role={roleStr sd.role} con={con} lst={b01 sd.lst} stale={b01 sd.stale} att=[{",".intercalate (sd.att.map b01)}] conn={conn} eq=[{",".intercalate (sd.eq.map eqStr)}] tt={tt} gen={gen}"
+  base ++ s!" mgr={Manager.State.name sd.mgr} role={roleStr sd.role} con={con} lst={b01 sd.lst} stale={b01 sd.stale} att=[{",".intercalate (sd.att.map b01)}] conn={conn} eq=[{",".intercalate (sd.eq.map eqStr)}] tt={tt} gen={gen} tm={b01 sd.timer} oq=[{",".intercalate (sd.oq.map toString)}] rxh={sd.rxh}"
 
 def msgStr : Msg → String
   | .please => "please"
@@ -841,16 +1018,22 @@ def statusStr : Status → String
   | .closing => "closing"
   | .lost => "lost"
 
+def recStr : Rec → String
+  | .open_ n => "o" ++ toString n
+  | .ack n => "a" ++ toString n
+  | .ping => "pi"
+  | .pong => "po"
+
 def endStr (e : End) : String :=
   let o := match e.owner with | none => "cur" | some st => "old-" ++ Connector.State.name st
-  s!"{o}/{DCP.State.name e.dcp}/{statusStr e.status}"
+  s!"{o}/{DCP.State.name e.dcp}/{statusStr e.status}/{e.inq.length}"
 
 def showLinks (s : Sys) : String :=
   let rec go : Nat → List (Option Link) → List String
     | _, [] => []
     | i, none :: t => s!"{i}:free" :: go (i + 1) t
     | i, some k :: t =>
-      s!"{i}:dial={k.dialer.name} hs={b01 k.hs} kf={b01 k.kf} kl={b01 k.kl} extra=0 A:{endStr k.a} B:{endStr k.b}" :: go (i + 1) t
+      s!"{i}:dial={k.dialer.name} hs={b01 k.hs} kf={b01 k.kf} kl={b01 k.kl} sil={if k.sa || k.sb then (if k.sa then "A" else "") ++ (if k.sb then "B" else "") else "-"} qa=[{",".intercalate (k.qa.map recStr)}] qb=[{",".intercalate (k.qb.map recStr)}] A:{endStr k.a} B:{endStr k.b}" :: go (i + 1) t
   " | ".intercalate (go 0 s.links)
 
 def showConc (c : Conc) : String :=
@@ -867,6 +1050,16 @@ def sysEvent? : List String → Option Event
   | ["dilate", x] => (side? x).map .dilate
   | ["connect", x] => (side? x).map .connect
   | ["sigrec", x] => (side? x).map .sigrec
+  | ["write", x] => (side? x).map .write
+  | ["tick", x] => (side? x).map .tick
+  | ["silence", x, l] => do
+    let x ← side? x
+    let l ← l.toNat?
+    pure (.silence x l)
+  | ["more", x, l] => do
+    let x ← side? x
+    let l ← l.toNat?
+    pure (.more x l)
   | ["hs", l] => l.toNat?.map .hs
   | ["kcmf", l] => l.toNat?.map .kcmf
   | ["kcml", l] => l.toNat?.map .kcml
@@ -904,7 +1097,6 @@ def stepLine (c : Conc) (line : String) : Conc × String :=
       let (s', errs) := turn x (c.sys.side x).eq.length c.sys []
       fin { c with sys := s' } (if errs.isEmpty then "ok" else "logged:" ++ ",".intercalate (errs.map Exn.name))
     | none => (c, "bad-op")
-  | ["more", _, _] => fin c "skip"      -- nothing but prologue, handshake and one KCM per direction is ever written before selection completes
   | ["hspart", l] =>
     -- some, not all, of the prologue/handshake bytes of link l are delivered: no control effect
     match l.toNat? with
